@@ -3,6 +3,8 @@
 // legacy TCPStreamFollower after a scripted handshake, at initial sequence numbers around 0, 2^31 and 2^32.
 // Logged in logical coordinates (offset from the ISN) so that TLC's 32-bit integers are never exceeded.
 #include "vh.h"
+#include <sanitizer/lsan_interface.h>
+#include <memory>
 #include <tins/tcp_ip/data_tracker.h>
 #include <tins/tcp_ip/flow.h>
 #include <tins/tcp_stream.h>
@@ -85,16 +87,24 @@ static void run_flow(const vh::Json& segs, uint32_t isn, bool v6, vh::Out& out, 
 }
 
 struct LegacyRec { std::vector<uint8_t> got; bool server; int ended; };
-static void run_legacy(const vh::Json& segs, uint32_t isn, bool server_dir, vh::Out& out, const std::string& cfg) {
-    out.begin(cfg + ",\"obj\":\"" + (server_dir ? "legacy_s" : "legacy_c") + "\"");
-    TCPStreamFollower fol; LegacyRec rec; rec.server = server_dir; rec.ended = 0;
+// --own 1 (C12, spec/pdu/Holders + HolderTrace): what the user's packet looks like before and after the follower saw it,
+// whether its parent links are sound, and whether anything is leaked once the follower is gone
+static void view(vh::W& w, const char* key, PDU* top) { w.key(key).A(); for (PDU* q = top; q; q = q->inner_pdu()) w.A().v((long)q->pdu_type()).v((long)q->header_size()).E(); w.E(); }
+static bool links_ok(PDU* top) { if (top->parent_pdu()) return false; for (PDU* q = top; q->inner_pdu(); q = q->inner_pdu()) if (q->inner_pdu()->parent_pdu() != q) return false; return true; }
+static void run_legacy(const vh::Json& segs, uint32_t isn, bool server_dir, vh::Out& out, const std::string& cfg, vh::Rng& rng, bool own) {
+    out.begin(cfg + ",\"obj\":\"" + (server_dir ? "legacy_s" : "legacy_c") + "\"" + (own ? ",\"ip\":" + std::to_string((long)PDU::IP) + ",\"raw\":" + std::to_string((long)PDU::RAW) : std::string()));
+    std::unique_ptr<TCPStreamFollower> fol_p(new TCPStreamFollower()); TCPStreamFollower& fol = *fol_p; LegacyRec rec; rec.server = server_dir; rec.ended = 0;
     auto data_fun = [&](TCPStream& s) { TCPStream::payload_type& p = rec.server ? s.server_payload() : s.client_payload(); rec.got.insert(rec.got.end(), p.begin(), p.end()); p.clear(); };
     auto end_fun = [&](TCPStream&) { rec.ended++; };
     const char* C = "192.168.0.1"; const char* S = "192.168.0.2";
     uint32_t other = 0x12345678u;
-    auto feed = [&](PDU& pdu) { std::vector<PDU*> v(1, &pdu); fol.follow_streams(v.begin(), v.end(), data_fun, end_fun); };
+    bool followed = false;      // a stream for this 4-tuple exists (from the SYN until both sides have finished)
+    auto feed = [&](PDU& pdu) { std::vector<PDU*> v(1, &pdu);
+        vh::W ow; if (own) { ow.O().kv("e", "feed").kv("holder", "follower").kv("status", "").kv("followed", followed && rec.ended == 0); view(ow, "before", &pdu); }
+        fol.follow_streams(v.begin(), v.end(), data_fun, end_fun);
+        if (own) { view(ow, "after", &pdu); ow.kv("links_ok", links_ok(&pdu)).E(); out.event(ow); } };
     // handshake: the direction under test starts its data at `isn`
-    { TCP t(80, 4000); t.flags(TCP::SYN); t.seq(server_dir ? other - 1 : isn - 1); EthernetII p = EthernetII() / IP(S, C) / t; feed(p); }
+    { TCP t(80, 4000); t.flags(TCP::SYN); t.seq(server_dir ? other - 1 : isn - 1); EthernetII p = EthernetII() / IP(S, C) / t; feed(p); followed = true; }
     { TCP t(4000, 80); t.flags(TCP::SYN | TCP::ACK); t.seq(server_dir ? isn - 1 : other - 1); t.ack_seq(server_dir ? other : isn); EthernetII p = EthernetII() / IP(C, S) / t; feed(p); }
     for (size_t i = 0; i < segs.size(); ++i) {
         long off = segs[i][0].num(), len = segs[i][1].num();
@@ -103,9 +113,20 @@ static void run_legacy(const vh::Json& segs, uint32_t isn, bool server_dir, vh::
         TCP t(server_dir ? 4000 : 80, server_dir ? 80 : 4000); t.flags(TCP::ACK); t.seq(isn + (uint32_t)off);
         EthernetII p = EthernetII() / (server_dir ? IP(C, S) : IP(S, C)) / t / RawPDU(b.begin(), b.end());
         feed(p);
+        if (own) continue;
         vh::W w; w.O().kv("e", "lseg").kv("off", off).kv("len", len).kbytes("deliv", rec.got).E();
         out.event(w);
     }
+    // how the connection ends, with whatever is still buffered behind a hole: nothing more / FIN or RST of the side under test /
+    // both sides finish (the follower then forgets the stream) - no delivery claim is made about these packets (C06 is about the
+    // segments above); they are there for the sanitizers and for the ownership part of C12
+    long L = 0; for (size_t i = 0; i < segs.size(); ++i) L = std::max<long>(L, segs[i][0].num() + segs[i][1].num());
+    int ending = (int)rng.below(4);
+    if (ending >= 1) { TCP t(server_dir ? 4000 : 80, server_dir ? 80 : 4000); t.flags(ending == 2 ? TCP::RST : (TCP::FIN | TCP::ACK)); t.seq(isn + (uint32_t)L);
+        EthernetII p = EthernetII() / (server_dir ? IP(C, S) : IP(S, C)) / t; feed(p); }
+    if (ending == 3) { TCP t(server_dir ? 80 : 4000, server_dir ? 4000 : 80); t.flags(TCP::FIN | TCP::ACK); t.seq(other);
+        EthernetII p = EthernetII() / (server_dir ? IP(S, C) : IP(C, S)) / t; feed(p); }
+    if (own) { fol_p.reset(); int leaks = __lsan_do_recoverable_leak_check(); vh::W w; w.O().kv("e", "end").kv("leaks", leaks).E(); out.event(w); }
     out.end();
 }
 
@@ -119,7 +140,7 @@ static void scenario(const vh::Json& sc, vh::Out& out, vh::Rng& rng, const vh::A
         std::string cfg = "\"L\":" + std::to_string(L) + ",\"isn\":\"" + std::to_string(isns[i]) + "\"";
         if (objs.find("tracker") != std::string::npos) run_tracker(segs, isns[i], out, cfg);
         if (objs.find("flow") != std::string::npos) run_flow(segs, isns[i], rng.coin(), out, cfg);
-        if (objs.find("legacy") != std::string::npos) run_legacy(segs, isns[i], rng.coin(), out, cfg);
+        if (objs.find("legacy") != std::string::npos) { bool sd = rng.coin(); run_legacy(segs, isns[i], sd, out, cfg, rng, args.num("own", 0) != 0); }
     }
 }
 
